@@ -369,6 +369,10 @@ def step (w : W) (o : Op) : W × String :=
     (w, match bc.decodeAddr a with
         | some sc => "=> " ++ hexD sc
         | none => "=> x")
+  | "addr.verify" =>
+    let pk := pubKeyOf (o.str "kind") (o.bytes "key")
+    (w, "=> " ++ boolStr (if o.str "version" == "0" then Bitcoin.verifyDepositScriptV0 bc pk (o.bytes "evm") (o.bytes "out0")
+                          else Bitcoin.verifyDepositScriptV1 bc pk (o.bytes "magic") (o.bytes "evm") (o.bytes "out0") (o.bytes "out1")))
   | "addr.deposit" =>
     let pk := pubKeyOf (o.str "kind") (o.bytes "key")
     let pk2 := pubKeyOf (o.str "kind2") (o.bytes "key2")
